@@ -11,6 +11,7 @@ import random
 import shutil
 import signal
 import sqlite3
+import time
 import types
 import typing
 
@@ -44,6 +45,8 @@ def make_traces(batch_rows, nbad, salt=""):
     out = []
     if batch_rows == "BIG":
         batch_rows = [("mbig", "fn%04d" % j) for j in range(BIG)]
+    elif isinstance(batch_rows, (tuple, list)) and len(batch_rows) == 2 and batch_rows[0] in ("PRE", "CUT"):
+        batch_rows = [("mbig", "%s%06d" % (batch_rows[0].lower(), j)) for j in range(batch_rows[1])]
     for j, rid in enumerate(batch_rows):
         mod, qn = ROWS[rid] if rid in ROWS else rid
         f = types.FunctionType(_code(), {}, qn.split(".")[-1])
@@ -88,6 +91,14 @@ def worker_main(dbpath, pipe, repo):
     st = {"free": True}
 
     def handler():
+        if st.get("act"):            # unattended run, cut after a number of callbacks (one-shot)
+            st["seen"] += 1
+            if st["act"] != "count" and st["seen"] >= st["cut"]:
+                act, st["act"] = st["act"], None
+                if act == "kill":
+                    os.kill(os.getpid(), signal.SIGKILL)
+                return 1
+            return 0
         if st["free"]:
             return 0
         pipe.send(("paused",))
@@ -119,6 +130,22 @@ def worker_main(dbpath, pipe, repo):
                 except Exception as e:
                     pipe.send(("done", False, "%s: %s" % (type(e).__name__, e)))
                 st["free"] = True
+            elif cmd[0] == "use_make_store":      # the connection DefaultConfig.trace_store() would hand out
+                conn.close()
+                store = SQLiteStore.make_store(dbpath)
+                conn = store.conn
+                conn.set_progress_handler(handler, TICK)
+                pipe.send(("ok",))
+            elif cmd[0] == "add_cut":             # add(rows), cut after cmd[2] progress callbacks by cmd[3]
+                traces = make_traces(cmd[1], 0)
+                st.update(free=True, act=cmd[3], cut=cmd[2], seen=0)
+                try:
+                    store.add(traces)
+                    res = ("done", True, "", st["seen"])
+                except Exception as e:
+                    res = ("done", False, "%s: %s" % (type(e).__name__, e), st["seen"])
+                st["act"] = None
+                pipe.send(res)
             elif cmd[0] == "filter":
                 rows = store.filter(cmd[1], cmd[2], cmd[3])
                 pipe.send(("rows", [(r.module, r.qualname, r.arg_types, r.return_type, r.yield_type) for r in rows]))
@@ -281,11 +308,99 @@ def run_behaviour(sc):
     return {"tid": sc["tid"], "events": events}
 
 
+def count_event(dbpath, sizes):
+    """Big batches are observed as counts: how many rows of each batch are in the table (and how many other rows)."""
+    c = sqlite3.connect(dbpath, timeout=2)
+    try:
+        per = {}
+        for b, (prefix, size) in sizes.items():
+            per[b] = c.execute("SELECT count(DISTINCT qualname), count(*) FROM monkeytype_call_traces WHERE module = 'mbig' "
+                               "AND qualname LIKE ?", (prefix + "%",)).fetchone()
+        total = c.execute("SELECT count(*) FROM monkeytype_call_traces").fetchone()[0]
+        integ = c.execute("PRAGMA integrity_check").fetchone()[0]
+    except sqlite3.DatabaseError as e:       # e.g. "database disk image is malformed"
+        return {"ev": "CheckCounts", "counts": [], "other": 0, "integrity": str(e)[:60]}
+    finally:
+        c.close()
+    return {"ev": "CheckCounts", "counts": [{"b": b, "present": per[b][0], "copies": per[b][1], "size": sizes[b][1]} for b in sorted(per)],
+            "other": total - sum(v[1] for v in per.values()), "integrity": integ}
+
+
+def run_bigcut(sc):
+    """sc = {tid, pre, rows, cut, act}: through the connection make_store() hands out, one committed batch of `pre`
+    rows, then one batch of `rows` rows whose add() is cut after `cut` progress callbacks by `act` (abort = the
+    statement is interrupted once, kill = SIGKILL of the writer); then the file is looked at and reopened."""
+    ctx = mp.get_context("fork")
+    d = tlc.scratch_dir("mtverif_dbbig_")
+    dbpath = os.path.join(d, "traces.sqlite3")
+    events = []
+    sizes = {"bpre": ("pre", sc["pre"]), "bcut": ("cut", sc["rows"])}
+    w = None
+    try:
+        from monkeytype.db.sqlite import SQLiteStore
+        SQLiteStore.make_store(dbpath).conn.close()
+        w = Conn(ctx, dbpath)
+        w.call("use_make_store")
+        if sc["pre"]:
+            events.append({"ev": "BigAddStart", "c": "c1", "b": "bpre", "size": sc["pre"]})
+            msg = w.call("add_cut", ("PRE", sc["pre"]), 0, "count", timeout=120)
+            events.append({"ev": "AddEnd", "c": "c1", "b": "bpre", "ok": bool(msg[1]), "err": str(msg[2])[:80]})
+            events.append(count_event(dbpath, sizes))
+        events.append({"ev": "BigAddStart", "c": "c1", "b": "bcut", "size": sc["rows"]})
+        w.pipe.send(("add_cut", ("CUT", sc["rows"]), sc["cut"], sc["act"]))
+        deadline = time.time() + 180
+        msg = None
+        while time.time() < deadline:
+            if w.pipe.poll(0.05):
+                try:
+                    msg = w.pipe.recv()
+                except EOFError:
+                    msg = None
+                break
+            if not w.proc.is_alive():
+                break
+        if msg is None:
+            w.proc.join(5)
+            events.append({"ev": "Crash", "c": "c1", "b": "bcut"})
+        else:
+            events.append({"ev": "AddEnd", "c": "c1", "b": "bcut", "ok": bool(msg[1]), "err": str(msg[2])[:80]})
+        events.append(count_event(dbpath, sizes))
+        w.close()
+        fresh = Conn(ctx, dbpath)          # reopen: a hot journal, if any, is rolled back now
+        msg = fresh.call("modules", timeout=60)
+        if msg[0] != "mods":
+            events.append({"ev": "QueryFailed", "c": "fresh", "op": "list_modules", "err": str(msg[1])[:80]})
+        fresh.close()
+        events.append(count_event(dbpath, sizes))
+    finally:
+        if w is not None:
+            w.close()
+        shutil.rmtree(d, ignore_errors=True)
+    return {"tid": sc["tid"], "events": events}
+
+
+def calibrate_callbacks(rows):
+    """Number of progress callbacks an uninterrupted add() of `rows` rows takes (on an empty table)."""
+    ctx = mp.get_context("fork")
+    d = tlc.scratch_dir("mtverif_dbcal_")
+    try:
+        dbpath = os.path.join(d, "t.sqlite3")
+        from monkeytype.db.sqlite import SQLiteStore
+        SQLiteStore.make_store(dbpath).conn.close()
+        w = Conn(ctx, dbpath)
+        w.call("use_make_store")
+        msg = w.call("add_cut", ("CUT", rows), 0, "count", timeout=120)
+        w.close()
+        return int(msg[3])
+    finally:
+        shutil.rmtree(d, ignore_errors=True)
+
+
 def _run_chunk(chunk):
     core.use_repo()
     import logging
     logging.disable(logging.CRITICAL)
-    return [run_behaviour(sc) for sc in chunk]
+    return [(run_bigcut(sc) if "cut" in sc else run_behaviour(sc)) for sc in chunk]
 
 
 def run_behaviours(scs, procs=16):
@@ -379,6 +494,21 @@ def main(pid, tier, seed, replay=None):
             plan[0]["replayed_sample"] = 1500
         scs = [{"tid": i + 1, "hist": h, "big": i % 40 == 7} for i, h in enumerate(beh1 + beh2)]
         plan.append({"family": "of these, schedules ending with one batch of %d distinct rows" % BIG, "behaviours": sum(1 for x in scs if x["big"])})
+    if not replay:
+        # batches far larger than any plausible internal chunk / SQLite's page cache, cut at many points of the insert
+        # by an interrupted statement or by SIGKILL of the writer, through the connection make_store() hands out
+        ncut = 0
+        for rows, pre, fracs, acts in ((2400, 300, (0.1, 0.3, 0.45, 0.55, 0.8, 0.97) if q else tuple(x / 20 for x in range(1, 20)), ("abort", "kill")),
+                                      (24000, 2500, (0.45, 0.75, 0.93) if q else tuple(x / 10 for x in range(1, 10)), ("kill",))):
+            total = calibrate_callbacks(rows)
+            for fr in fracs:
+                for act in acts:
+                    scs.append({"tid": len(scs) + 1, "pre": pre, "rows": rows, "cut": max(1, int(total * fr)), "act": act,
+                                "callbacks_uninterrupted": total})
+                    ncut += 1
+        plan.append({"family": "one batch of 2400 / 24000 rows after a committed batch, its add() cut at many points by an "
+                               "interrupted statement or SIGKILL, through make_store()'s connection; counts and integrity before "
+                               "and after reopening", "behaviours": ncut})
     records = run_behaviours(scs)
     by_tid = {r["tid"]: r for r in records}
     sc_by_tid = {s["tid"]: s for s in scs}
@@ -386,9 +516,13 @@ def main(pid, tier, seed, replay=None):
     for v in verdicts:
         rec = by_tid[v["tid"]]
         for clause in v.get("viol", []):
-            run.violation(signature(rec, clause), {"hist": sc_by_tid[v["tid"]]["hist"], "big": sc_by_tid[v["tid"]].get("big", False)})
+            sc = sc_by_tid[v["tid"]]
+            if "cut" in sc:
+                run.violation(dict(signature(rec, clause), big_batch_cut=sc["act"]), {k: sc[k] for k in sc if k != "tid"})
+                continue
+            run.violation(signature(rec, clause), {"hist": sc["hist"], "big": sc.get("big", False)})
     kinds = lambda r: {e["ev"] for e in r["events"]}  # noqa: E731
-    nt = {json.dumps(sc_by_tid[r["tid"]]["hist"], sort_keys=True) for r in records
+    nt = {json.dumps(sc_by_tid[r["tid"]].get("hist", sc_by_tid[r["tid"]]), sort_keys=True) for r in records
           if {"AddStart", "Filter"} <= kinds(r) or "Crash" in kinds(r)}
     ex = next((r for r in records if "Crash" in kinds(r)), records[0])
     extended = None
